@@ -1105,7 +1105,7 @@ def _own_contains(region, P, kinds):
 
 TIER = {
     "quick": dict(N={1: 96, 2: 24, 3: 16}, N_surface=12, N_voxel=8, G={1: 4, 2: 4, 3: 4}, q={1: 8, 2: 48, 3: 12}, Gs={1: 16, 2: 8, 3: 4}, qs={1: 4, 2: 12, 3: 8}, max_exec=400_000, max_leaves_2d=30_000),
-    "thorough": dict(N={1: 256, 2: 64, 3: 24}, N_surface=32, N_voxel=16, G={1: 8, 2: 8, 3: 4}, q={1: 8, 2: 32, 3: 14}, Gs={1: 32, 2: 16, 3: 8}, qs={1: 4, 2: 8, 3: 6}, max_exec=3_000_000, max_leaves_2d=120_000),
+    "thorough": dict(N={1: 256, 2: 64, 3: 24}, N_surface=32, N_voxel=12, G={1: 8, 2: 8, 3: 4}, q={1: 8, 2: 32, 3: 14}, Gs={1: 32, 2: 16, 3: 8}, qs={1: 4, 2: 8, 3: 6}, max_exec=3_000_000, max_leaves_2d=120_000),
 }
 
 
